@@ -501,7 +501,7 @@ func (fr *Frame) exec(in ssa.Instruction, st *State) *State {
 		if fr.dryStates != nil {
 			*fr.dryStates = append(*fr.dryStates, st)
 		}
-		fr.rets = append(fr.rets, retRec{st: st, vals: vals})
+		fr.rets = append(fr.rets, retRec{st: st, vals: vals, pos: x.Pos()})
 		return nil
 	case *ssa.Panic:
 		if !(fr.topSpecPanicsOK()) {
@@ -1375,6 +1375,9 @@ func (fr *Frame) frameCond(comp string, v string) (string, bool) {
 		return "", false
 	}
 	if strings.HasPrefix(comp, "Seen_") || strings.HasPrefix(comp, "C_") || strings.HasPrefix(comp, "Bx_") || comp == "$next" {
+		return "", false
+	}
+	if strings.HasPrefix(comp, "GG_") && fr.e.g.specs.Frameless[comp[3:]] {
 		return "", false
 	}
 	if fr.targets == nil {
